@@ -1,4 +1,5 @@
 import VelaVerif.Model.InPlace
+import VelaVerif.Spec.InPlace
 /-!
 # Lemmas about the in-place decision chain (`Model/InPlace.lean`), used by `Props/C12InPlace.lean`
 
@@ -1366,6 +1367,63 @@ theorem ifmToFuseP_facts (ru : FuseRules) (fi : FuseInfo) (t : Tensor) (h : ifmT
             · exact h1
         · simp at h
     · simp at h
+
+
+open VelaVerif.LiveRange (FuseRules ifmToFuseP) in
+/-- `fused … = some x`: `x` is an operand of the pass, unprotected, with at most one consumer -/
+theorem fused_facts {ru : FuseRules} {g : Graph} {s : St} {d : FuseDesc} {o x : Nat} (hf : fused ru g s d o = some x) :
+    ((s.pass o).ifm = some x ∨ (s.pass o).ifm2 = some x) ∧ (finalCons g s x).length ≤ 1 ∧
+    ((ru.memcpyWp = true ∨ (d.elementwise = true ∧ d.varWrite = false)) → s.wp x = false) ∧
+    ((ru.elementwiseVar = true ∧ ru.memcpyVar = true) →
+      (((s.pass o).ifm = some x ∧ d.ifmAttr.isVariable = false) ∨ ((s.pass o).ifm2 = some x ∧ d.ifm2Attr.isVariable = false))) := by
+  unfold fused at hf
+  cases hfi : fuseInfo g s d o with
+  | none => simp [hfi] at hf
+  | some fi =>
+    simp only [hfi] at hf
+    cases hfu : ifmToFuseP ru fi with
+    | none => simp [hfu] at hf
+    | some r =>
+      cases r with
+      | none => simp [hfu] at hf
+      | some t =>
+        simp only [hfu, Option.some.injEq] at hf
+        obtain ⟨hop, hc, hw, hv⟩ := ifmToFuseP_facts ru fi t hfu
+        unfold fuseInfo at hfi
+        cases hofm : (s.pass o).ofm with
+        | none => simp [hofm] at hfi
+        | some ofm =>
+          simp only [hofm, Option.some.injEq] at hfi
+          subst hfi
+          simp only [Option.map_eq_some_iff] at hop
+          have key : ∀ (at_ : TAttr) (y : Nat), tensorRec g s at_ y = t → y = x ∧ t.consumers = (finalCons g s x).length ∧
+              t.writeProtected = s.wp x ∧ t.isVariable = at_.isVariable := by
+            intro at_ y hy
+            subst hy
+            simp only [tensorRec] at hf
+            subst hf
+            exact ⟨rfl, rfl, rfl, rfl⟩
+          rcases hop with ⟨y, hy, hrec⟩ | ⟨y, hy, hrec⟩
+          · obtain ⟨rfl, h1, h2, h3⟩ := key _ y hrec
+            exact ⟨Or.inl hy, by omega, fun hh => by rw [← h2]; exact hw hh,
+              fun hh => Or.inl ⟨hy, by rw [← h3]; exact hv hh⟩⟩
+          · obtain ⟨rfl, h1, h2, h3⟩ := key _ y hrec
+            exact ⟨Or.inr hy, by omega, fun hh => by rw [← h2]; exact hw hh,
+              fun hh => Or.inr ⟨hy, by rw [← h3]; exact hv hh⟩⟩
+
+
+/-- the operator sequence of a graph description, as the Spec reads it -/
+def progOf (g : Graph) (persistent : List Nat) : InPlaceSpec.Prog :=
+  { nodes := g.passes.map fun p => { reads := p.pass.reads, writes := p.pass.outputs },
+    outputs := g.outputs, persistent := persistent }
+
+theorem readsAt_progOf (g : Graph) (pers : List Nat) (q a : Nat) :
+    InPlaceSpec.readsAt (progOf g pers) q a = g.readsAt q a := by
+  unfold InPlaceSpec.readsAt progOf Graph.readsAt Graph.passAt
+  simp only [List.getElem?_map]
+  cases g.passes[q]? with
+  | none => simp [Pass.empty]
+  | some p => rfl
 
 
 end VelaVerif.InPlace
